@@ -37,6 +37,7 @@ type Cmp struct {
 	L, R   string
 	LConst string // exact constant value of the side, "" if not constant
 	RConst string
+	NonNeg string // a side known to be non-negative from its type (an unsigned integer): `0 < t` or `0 == t` holds
 }
 
 func True() *F  { return &F{Op: OpTrue} }
@@ -303,6 +304,21 @@ func Implies(pc, goal *F) ImplResult {
 	type excl struct{ a, b int }
 	var excls []excl
 	var exhaust [][]int
+	nonNeg := map[string]bool{}
+	var collectNN func(f *F)
+	collectNN = func(f *F) {
+		if f == nil {
+			return
+		}
+		if f.Op == OpAtom && f.Cmp != nil && f.Cmp.NonNeg != "" {
+			nonNeg[f.Cmp.NonNeg] = true
+		}
+		for _, k := range f.Kids {
+			collectNN(k)
+		}
+	}
+	collectNN(pc)
+	collectNN(goal)
 	idx := map[string]int{}
 	for i, k := range keys {
 		idx[k] = i
@@ -341,7 +357,7 @@ func Implies(pc, goal *F) ImplResult {
 			if okr && oke && i < rev {
 				exhaust = append(exhaust, []int{i, rev, eq})
 			}
-			if oke && ci.L == "0" && strings.HasPrefix(ci.R, "len(") {
+			if oke && ci.L == "0" && (strings.HasPrefix(ci.R, "len(") || nonNeg[ci.R]) {
 				exhaust = append(exhaust, []int{i, eq})
 			}
 			// integer constants on one side: x < c1 implies x < c2 for c1 <= c2 is not modelled
